@@ -48,7 +48,9 @@ def run_property(pid, tier):
     needed = {}     # qual -> set(clause names) required transitively by the property
     ilaw_missing = set()
     rounds = 0
-    while todo:
+    again = False
+    while todo or again:
+        again = False
         rounds += 1
         res = M.run_functions(todo, nproc)
         results.update(res)
@@ -79,6 +81,22 @@ def run_property(pid, tier):
                                         changed = True
                                     if impl not in results:
                                         newq.add(impl)
+            # class invariants assumed anywhere in the cone: every function that returns such an object, and every method
+            # of such a class, has to establish / preserve them (their `ret-inv:*` and `inv:*` obligations become relevant)
+            for q, r in list(results.items()):
+                if "fault" in r or not (q in roots or needed.get(q)):
+                    continue
+                for n in r["notes"]:
+                    if n.startswith("assumes-inv "):
+                        cq = n.split(" ", 1)[1]
+                        if cq not in INV_CONE["classes"]:
+                            INV_CONE["classes"].add(cq)
+                            again = True
+                            INV_CONE["names"] |= {cl.name for cl in reg.invariants.get(cq, [])}
+                            for q2 in invariant_producers(repo, reg, cq):
+                                INV_CONE["quals"].add(q2)
+                                if q2 not in results:
+                                    newq.add(q2)
             # interface laws used as facts in abstract proofs: add the lemma proving each for every refinement
             for q, r in list(results.items()):
                 if "fault" in r or not (q in roots or needed.get(q)):
@@ -114,7 +132,7 @@ def run_property(pid, tier):
                     violations.append((q, o))
                 elif o["status"] != "discharged":
                     undecided.append((q, o, o["extra"].get("reason", "unknown")))
-        if touched or q in roots:
+        if touched or q in roots or q in INV_CONE["quals"]:
             for u in r["unsupported"]:
                 undecided.append((q, None, "outside-subset: " + u))
             for e in r["errors"]:
@@ -331,7 +349,7 @@ def run_property(pid, tier):
 SUITES_FOR = {
     "C01": ["s_sessions", "s_params_mix"], "C02": ["s_sessions"], "C03": ["s_derivations", "s_params_mix", "s_sessions"],
     "C04": ["s_sessions", "s_entropy"], "C05": ["s_elements", "s_sessions"], "C06": ["s_sessions"], "C07": ["s_sessions"],
-    "C08": ["s_sessions", "s_params_mix"], "C09": ["s_params_mix"], "C10": ["s_params_mix", "s_sessions"], "C11": ["s_util", "s_entropy"],
+    "C08": ["s_sessions", "s_params_mix"], "C09": ["s_params_mix", "s_sessions"], "C10": ["s_params_mix", "s_sessions"], "C11": ["s_util", "s_entropy"],
     "C12": ["s_elements"], "C13": ["s_elements"], "C14": ["s_derivations", "s_ae_long_runs"], "C15": ["s_util", "s_elements"],
     "C16": ["s_params_mix", "s_entropy"], "C17": [], "C18": ["s_elements"],
 }
@@ -380,6 +398,35 @@ def lean_summary():
     return out
 
 
+INV_CONE = {"classes": set(), "names": set(), "quals": set()}
+
+
+def invariant_producers(repo, reg, cq):
+    """contracts of functions that can produce or modify an object whose class invariant `cq` carries: the methods of the
+    classes below cq (constructors included) and every function whose declared result is such an object"""
+    base = repo.find_class(cq)
+    below = set()
+    for m in repo.modules.values():
+        for ci in m.classes.values():
+            try:
+                if base is not None and (ci is base or repo.is_subclass(ci, base)):
+                    below.add(ci.qual)
+            except Exception:
+                pass
+    below.add(cq)
+    out = []
+    for q2, c in reg.contracts.items():
+        if c.abstract_flag or q2 in reg.ghosts:
+            continue
+        if any(q2.startswith(k + ".") for k in below):
+            out.append(q2)
+            continue
+        rt = getattr(c, "ret_type", None) or ""
+        if any(("obj:" + k) in rt for k in below):
+            out.append(q2)
+    return out
+
+
 def relevant(pid, q, r, o, needed, roots):
     if o["kind"] == "canary":
         return False
@@ -387,6 +434,11 @@ def relevant(pid, q, r, o, needed, roots):
         return q in roots
     if pid in o["tags"]:
         return True
+    if q in INV_CONE["quals"] and o["clause"] is not None:
+        if o["kind"] == "retinv" and o["clause"] in INV_CONE["names"]:
+            return True
+        if o["clause"].startswith("inv:") and o["clause"][4:] in INV_CONE["names"]:
+            return True
     if o["clause"] is not None and o["clause"] in needed.get(q, ()):
         return True
     if o["kind"] in SUPPORT_KINDS:
